@@ -662,7 +662,20 @@ def rule_gf2_algebra(repo: Repo, rep: Report) -> int:
     return n + 2
 
 
+def thorough_evaluations(repo: Repo, rep: Report) -> None:
+    """Thorough tier: the evaluations that otherwise only decide unlisted spellings are run on the tree as it is."""
+    for what, fn, fi in (
+        ("create_systematic_generator_matrix evaluated for six information sets", systematic_matrix_evaluated, repo.func(SYS, "create_systematic_generator_matrix")),
+        ("get_information_and_parity_sets evaluated for five layouts and four inadmissible sets", info_parity_sets_evaluated, repo.func(SYS, "get_information_and_parity_sets")),
+    ):
+        st_, d_ = fn(fi)
+        if st_ is not None:
+            rep.add("SYSTEMATIC", fi, f"{what} (thorough tier)", st_, d_, node=fi.node)
+
+
 def run(repo: Repo, rep: Report, tier: str) -> None:
+    if tier == "thorough":
+        thorough_evaluations(repo, rep)
     n = rule_encode_form(repo, rep)
     n += rule_gf2_algebra(repo, rep)
     n += rule_row_reduction(repo, rep)
